@@ -2,6 +2,7 @@ package oracle
 
 import (
 	"fmt"
+	"sort"
 
 	"verif/journal"
 )
@@ -71,10 +72,24 @@ func checkC02(run *Run, res *Result) {
 					res.violate("C02", "R4-write-in-read-only-mode", e.N, "file", "read-only metadata mode: the checkpoint file was written")
 				}
 				if e.S == "write" {
+					now := parseFileStore(e.Raw)
+					// saving is lossless through every backend: rewriting the file must keep every vBucket's
+					// checkpoint it held before (nothing in the library clears single entries)
+					var lost []int
+					for vb := range stored {
+						if _, ok := now[vb]; !ok {
+							lost = append(lost, vb)
+						}
+					}
+					if len(lost) > 0 && len(now) > 0 {
+						sort.Ints(lost)
+						res.violate("C02", "R5-save-dropped-stored-checkpoint", e.N, "file", "file backend: the save rewrote the checkpoint file without the entries of vBuckets %v, which it held before (the next session cannot resume them)", lost)
+					}
+					res.probe("file-save-judged")
 					for vb := range stored {
 						delete(stored, vb)
 					}
-					for vb, o := range parseFileStore(e.Raw) {
+					for vb, o := range now {
 						stored[vb] = o
 					}
 				}
